@@ -6,14 +6,14 @@ _EV = "stable_baselines3/common/evaluation.py"
 
 SPECS = [
     # ---- Monitor ----
-    dict(name="mon_reset_refused", file=_MON, qual="Monitor.reset", start=r"^if not self.allow_early_resets", end=None, kind="test",
+    dict(name="mon_reset_refused", file=_MON, qual="Monitor.reset", start=r"^if .*self.allow_early_resets", end=None, kind="test",
          inputs=[("allow_early_resets", "bool"), ("needs_reset", "bool")],
          subst={"self.allow_early_resets": "allow_early_resets", "self.needs_reset": "needs_reset"}),
     dict(name="mon_reset_state", file=_MON, qual="Monitor.reset", start=r"^self.needs_reset = ", end=None,
          inputs=[], subst={"self.needs_reset": "needs_reset"}, outputs=[("needs_reset", "bool")]),
     dict(name="mon_step_refused", file=_MON, qual="Monitor.step", start=r"^if self.needs_reset", end=None, kind="test",
          inputs=[("needs_reset", "bool")], subst={"self.needs_reset": "needs_reset"}),
-    dict(name="mon_ends", file=_MON, qual="Monitor.step", start=r"^if terminated or truncated", end=None, kind="test",
+    dict(name="mon_ends", file=_MON, qual="Monitor.step", start=r"^if terminated\b", end=None, kind="test",
          inputs=[("terminated", "bool"), ("truncated", "bool")]),
     dict(name="mon_end_state", file=_MON, qual="Monitor.step", start=r"^self.needs_reset = ", end=r"^ep_len = ",
          inputs=[("sum_rewards", "Z"), ("n_rewards", "Z")],
@@ -37,7 +37,7 @@ SPECS = [
     # ---- evaluate_policy ----
     dict(name="ev_quota", file=_EV, qual="evaluate_policy", start=r"^episode_count_targets = ", end=None, kind="expr", ret="Z",
          pick="listcomp_elt", inputs=[("n_eval_episodes", "Z"), ("i", "Z"), ("n_envs", "Z")]),
-    dict(name="ev_under_quota", file=_EV, qual="evaluate_policy", start=r"^if episode_counts\[i\] < ", end=None, kind="test",
+    dict(name="ev_under_quota", file=_EV, qual="evaluate_policy", start=r"^if episode_counts\[i\] ", end=None, kind="test",
          inputs=[("count", "Z"), ("target", "Z")], subst={"episode_counts[i]": "count", "episode_count_targets[i]": "target"}),
     dict(name="ev_acc", file=_EV, qual="evaluate_policy", start=r"^current_rewards \+= ", end=r"^current_lengths \+= ",
          inputs=[("cur_r", "Z"), ("cur_l", "Z"), ("reward", "Z")],
